@@ -770,7 +770,11 @@ fn apply_fold_specific_filter<'query, AdapterT: Adapter<'query>>(
         let value = match tagged_value {
             TaggedValue::Some(value) => value,
             TaggedValue::NonexistentOptional => {
-                unreachable!("while applying fold-specific filter, the @fold turned out to not exist: {ctx:?}")
+                // The @fold is inside an @optional scope that did not exist.
+                // This context has no active vertex, so the filter passes regardless of
+                // the value being filtered, like all other filters inside such scopes.
+                debug_assert!(ctx.within_nonexistent_optional());
+                FieldValue::Null
             }
         };
         ctx.values.push(value);
